@@ -48,6 +48,8 @@ package analyzer
 //@ func runAnalyzer
 //@   prop C19 C08
 //@   dyncalls_frame pass.Report is the driver's callback
+//@   loop 1 body @every-file-of-the-pass-is-analysed emitted(fileinfo) == old(emitted(fileinfo)) + 1
+//@   loop 2 body @every-checker-runs-on-the-file emitted(checked) == old(emitted(checked)) + 1
 //@   loop 3 body @each-warning-reported-once emitted(converted) == old(emitted(converted)) + 1 && emitted(dyncall) == old(emitted(dyncall)) + 1
 //@   requires pass != nil
 //@   requires @files-non-nil forall k int :: (0 <= k && k < len(pass.Files)) ==> pass.Files[k] != nil
